@@ -141,7 +141,8 @@ func genOp(t *rapid.T, chain []byte, faults bool) Op {
 		op.Kind = "restart"
 	}
 	if faults && op.Kind != "restart" && !op.PutErr && rapid.IntRange(0, 7).Draw(t, "crash") == 0 {
-		op.CrashAt = rapid.IntRange(1, 3).Draw(t, "crashat")
+		// mostly the first durable op of the call (the only one of the pinned implementation)
+		op.CrashAt = rapid.SampledFrom([]int{1, 1, 1, 2, 2, 3}).Draw(t, "crashat")
 	}
 	return op
 }
@@ -459,16 +460,16 @@ func (w *wld) submit(i int, op Op) *world.Verdict {
 		if v := w.noTrace(i, before, "full"); v != nil {
 			return v
 		}
-		keep := [][]int{}
+		// the statement promises the bound, not the absence of early refusals: a refusal while no
+		// admissible queue is full is recorded as an observation and never narrows the model
+		full := false
 		for _, c := range w.cands {
 			if w.sc.Bound > 0 && len(c) >= w.sc.Bound {
-				keep = append(keep, c)
+				full = true
 			}
 		}
-		if len(keep) == 0 {
+		if !full {
 			w.obs["full-rejection-below-bound"] = true
-		} else {
-			w.cands = keep
 		}
 	default:
 		w.refuse = append(w.refuse, txs)
@@ -633,6 +634,15 @@ func (w *wld) classify(got [][]byte) (string, string) {
 		}
 		return "C10/handed-out-batch-reappeared", "a batch that had been handed out was handed out again: " + ctx
 	}
+	for id, r := range w.recs {
+		if eqTxs(r.txs, got) {
+			// an accepted (or crash-undecided) batch that no admissible queue expects at this point
+			if r.epoch < w.epoch {
+				return "C10/order-changed-by-restart", fmt.Sprintf("batch #%d handed out at a position no admissible order allows after a restart: %s", id, ctx)
+			}
+			return "C10/order-changed-without-restart", fmt.Sprintf("batch #%d handed out at a position no admissible order allows: %s", id, ctx)
+		}
+	}
 	if containsTxs(w.refuse, got) {
 		return "C10/refused-submission-handed-out", "a submission that was answered with an error was handed out: " + ctx
 	}
@@ -682,14 +692,14 @@ func runHistory(sc Scenario, globalCrash int) (world.Verdict, int) {
 		case "next":
 			v = w.next(i, op, fmt.Sprintf("op %d (next)", i))
 		case "restart":
-			v = w.reboot("restart")
+			v = w.reboot("restart-op")
 		}
 		if v != nil {
 			return *v, 0
 		}
 	}
 	if sc.FinalRestart {
-		if v := w.reboot("restart"); v != nil {
+		if v := w.reboot("restart-before-drain"); v != nil {
 			return *v, 0
 		}
 	}
@@ -714,7 +724,7 @@ func runHistory(sc Scenario, globalCrash int) (world.Verdict, int) {
 		}
 	}
 	// epilogue 2: nothing reappears after a restart
-	if v := w.reboot("restart"); v != nil {
+	if v := w.reboot("restart-after-drain"); v != nil {
 		return *v, 0
 	}
 	if v := w.next(-1, Op{}, "after the drain and one more restart"); v != nil {
@@ -935,7 +945,7 @@ func runConc(sc ConcScenario) world.Verdict {
 		return world.Fail("C10/concurrent-next-failed", "drain: %s", consErr)
 	}
 	suffix := ""
-	if sc.Restart && left > 0 {
+	if sc.Restart {
 		suffix = "-after-restart"
 	}
 	have := map[string]int{}
